@@ -491,3 +491,97 @@ Proof.
     destruct (Qmax_spec (Amaxt ts sims alts c0 t0) 0) as [[H1 ->]|[H1 ->]];
     destruct (Qmax_spec (Amaxt ts sims alts c0 t0) (nth c0 adj0 0)) as [[H2 ->]|[H2 ->]]; lra.
 Qed.
+
+(* ================= family-wise error control for the MODEL's output (min-P) =================
+   The smallest adjusted p-value returned by the model is the one attached to the head c0 of Lasc; it equals
+   #{rows r : m(r) <= m(observed)} / #rows with m(r) = min over all hypotheses of the row's permutation p-values,
+   which is the quantity wy_minp_fwer bounds. *)
+Lemma sdg_running A : forall L prev c a, In (c, a) (sdg A L prev) -> prev <= a.
+Proof.
+  induction L as [|c0 L IH]; intros prev c a H; [destruct H|].
+  cbn [sdg] in H.
+  assert (Hp : prev <= Qmax (A c0 L) prev) by (destruct (Qmax_spec (A c0 L) prev) as [[H1 ->]|[H1 ->]]; lra).
+  destruct H as [H|H]; [inversion H; subst; exact Hp|].
+  specialize (IH _ _ _ H). lra.
+Qed.
+Lemma assoc_get_in (l : list (nat * Q)) c : In c (map fst l) -> In (c, assoc_get l c) l.
+Proof.
+  induction l as [|[k v] l IH]; intros H; [destruct H|]. cbn [assoc_get].
+  destruct (Nat.eqb_spec k c) as [->|Hne]; [left; reflexivity|].
+  right. apply IH. destruct H as [H|H]; [cbn in H; congruence|exact H].
+Qed.
+Lemma sdg_keys A : forall L prev, map fst (sdg A L prev) = L.
+Proof. induction L as [|c L IH]; intros prev; cbn [sdg map fst]; [reflexivity|]. rewrite IH. reflexivity. Qed.
+
+Lemma qminl_head_min (a : Q) (l : list Q) : (forall v, In v l -> a <= v) -> qminl (a :: l) == a.
+Proof.
+  revert a. induction l as [|b l IH]; intros a H; [reflexivity|].
+  rewrite qminl_cons. assert (Hb : a <= b) by (apply H; left; reflexivity).
+  assert (Hq : a <= qminl (b :: l)).
+  { clear IH. revert b H Hb. induction l as [|c l IH2]; intros b H Hb; [exact Hb|].
+    rewrite qminl_cons. destruct (Qmin_spec b (qminl (c :: l))) as [[H1 ->]|[H1 ->]]; [exact Hb|].
+    apply IH2; [|apply H; right; left; reflexivity].
+    intros v Hv. apply H. destruct Hv as [->|Hv]; [right; left; reflexivity|right; right; exact Hv]. }
+  destruct (Qmin_spec a (qminl (b :: l))) as [[H1 ->]|[H1 ->]]; lra.
+Qed.
+
+Lemma sorted_last_min (R : nat -> nat -> Prop) : forall l a, StronglySorted R (l ++ [a]) -> Forall (fun i => R i a) l.
+Proof.
+  induction l as [|b l IH]; intros a H; [constructor|].
+  cbn in H. inversion H as [|b' l' Hs Hall]; subst. constructor.
+  - rewrite Forall_forall in Hall. apply Hall. apply in_or_app. right. left. reflexivity.
+  - apply IH. exact Hs.
+Qed.
+
+Theorem wy_minp_smallest_adjusted ts sims alts adj raw :
+  westfall_young_table ts sims MinP alts = Ok (adj, raw) -> (0 < length ts)%nat ->
+  let Lasc := rev (minp_order ts sims alts) in
+  let rows := all_rows ts sims in
+  let m := fun r => qminl (map (P ts sims alts r) Lasc) in
+  exists c0, hd_error Lasc = Some c0 /\
+    nth c0 adj 0 == qn (count_if (fun x => Qle_bool x (m ts)) (map m rows)) / qn (length rows) /\
+    forall c, (c < length ts)%nat -> nth c0 adj 0 <= nth c adj 0.
+Proof.
+  intros H Hk Lasc rows m.
+  destruct (wy_minp_model_eq_spec ts sims alts adj raw H) as [Hp [Hadj _]]. fold Lasc in Hp, Hadj.
+  set (k := length ts) in *.
+  assert (Nd : NoDup Lasc) by (apply (Permutation_NoDup (Permutation_sym Hp)), seq_NoDup).
+  destruct Lasc as [|c0 t0] eqn:EL.
+  { apply Permutation_length in Hp. rewrite seq_length in Hp. cbn in Hp. lia. }
+  exists c0. split; [reflexivity|].
+  unfold wy_spec in Hadj. cbv zeta in Hadj. cbn [fst] in Hadj. fold k in Hadj.
+  rewrite (stepdown_minp_sdg ts sims alts) in Hadj.
+  assert (Hlt : forall i, In i (c0 :: t0) -> (i < k)%nat) by (intros i Hi; apply (Permutation_in _ Hp) in Hi; apply in_seq in Hi; lia).
+  assert (Hnth : forall c, (c < k)%nat -> nth c adj 0 == assoc_get (sdg (Aminp ts sims alts) (c0 :: t0) 0) c).
+  { intros c Hc. revert Hadj. generalize (sdg (Aminp ts sims alts) (c0 :: t0) 0). intros sd Hadj.
+    assert (G : forall l l', Forall2 Qeq l l' -> forall i, nth i l 0 == nth i l' 0).
+    { induction 1 as [|a b l l' E F IH]; intros [|i]; cbn; try reflexivity; [exact E|apply IH]. }
+    rewrite (G _ _ Hadj c). rewrite (nth_map_seq _ k c 0 Hc). reflexivity. }
+  (* the head value *)
+  assert (Hc0 : (c0 < k)%nat) by (apply Hlt; left; reflexivity).
+  assert (Hhead : assoc_get (sdg (Aminp ts sims alts) (c0 :: t0) 0) c0 == Aminp ts sims alts c0 t0).
+  { cbn [sdg assoc_get]. rewrite Nat.eqb_refl. assert (Hn := Aminp_nonneg ts sims alts c0 t0).
+    destruct (Qmax_spec (Aminp ts sims alts c0 t0) 0) as [[H1 ->]|[H1 ->]]; lra. }
+  (* the observed row's minimum is its raw p-value at c0: raw p-values are non-decreasing along Lasc *)
+  assert (Hmin : m ts == P ts sims alts ts c0).
+  { unfold m. cbn [map]. apply qminl_head_min. intros v Hv. apply in_map_iff in Hv as [l [<- Hl]].
+    assert (Hs := minp_order_sorted ts sims alts).
+    assert (EL' : minp_order ts sims alts = rev t0 ++ [c0]).
+    { rewrite <- (rev_involutive (minp_order ts sims alts)). fold Lasc. rewrite EL. reflexivity. }
+    rewrite EL' in Hs. apply sorted_last_min in Hs. rewrite Forall_forall in Hs.
+    specialize (Hs l (proj1 (in_rev t0 l) Hl)). cbn beta in Hs.
+    rewrite (raw_nth ts sims alts c0 Hc0), (raw_nth ts sims alts l) in Hs by (apply Hlt; right; exact Hl). exact Hs. }
+  split.
+  - rewrite (Hnth c0 Hc0), Hhead. unfold Aminp. fold rows. fold m.
+    assert (E : count_if (fun x => Qle_bool x (P ts sims alts ts c0)) (map m rows) = count_if (fun x => Qle_bool x (m ts)) (map m rows)).
+    { apply count_if_map_compat. intros r. apply Qle_bool_compat; [reflexivity|symmetry; exact Hmin]. }
+    change (map (fun r => qminl (map (P ts sims alts r) (c0 :: t0))) rows) with (map m rows). rewrite E. reflexivity.
+  - intros c Hc. rewrite (Hnth c0 Hc0), (Hnth c Hc).
+    assert (Hin : In c (c0 :: t0)) by (apply (Permutation_in _ (Permutation_sym Hp)); apply in_seq; lia).
+    destruct Hin as [<-|Hin]; [apply Qle_refl|].
+    cbn [sdg assoc_get]. rewrite Nat.eqb_refl.
+    destruct (Nat.eqb_spec c0 c) as [E0|Hne]; [apply Qle_refl|].
+    set (a0 := Qmax (Aminp ts sims alts c0 t0) 0).
+    assert (Hk2 : In c (map fst (sdg (Aminp ts sims alts) t0 a0))) by (rewrite sdg_keys; exact Hin).
+    apply assoc_get_in in Hk2. apply sdg_running in Hk2. exact Hk2.
+Qed.
